@@ -23,7 +23,7 @@ func init() {
 		Level: "other",
 		Explanation: "Static table agreement and decodability. R13a: the set of LogType constants is compared with the case sets of LogType.String, LogTypeFromString, HydrateLog, the labels of the SQL enum log_type and the `new.type = '…'` branches of the handle_log trigger; String/FromString are checked to be inverse by constant evaluation of their case tables. " +
 			"R13b: for every log constructor (composite literal ledger.Log{Type: K, Data: X}) the static type of X is the payload type HydrateLog instantiates for K, and every payload struct with an interface-typed field has an UnmarshalJSON that assigns it. " +
-			"R13d: every value stored into ledger.Time.Time that originates from time.Now/time.Parse passes through Round/Truncate(DatePrecision). R13c: hash inputs (ChainLog/ComputeHash feed previous hash and the log into the digest; id derives from previous id). R13g: exact amounts — no function of the content-carrying packages (core types and codecs, machine, engine, store, API, bus) computes with a floating-point value, math/big.Float or a float parser (frozen exception: the one-shot v1 import). R13h: every struct with a hand-written UnmarshalJSON that decodes its input into an auxiliary struct (ChainedLog, SetMetadataLogPayload, DeleteMetadataLogPayload) is written by encoding/json from its own fields; the json key set of the type (tags, embedded promotion and shadowing as encoding/json computes them) is a subset of the key set of the auxiliary struct, compared case-insensitively as encoding/json matches them — a key the reader does not declare is dropped on read-back; every such field is also stored into the receiver (field store, `*s = T{…}` composite, or a whole-value copy), and integers parsed inside these decoders (transaction ids) are parsed with bit size 64, the width they are written with.",
+			"R13d: every value stored into ledger.Time.Time that originates from time.Now/time.Parse passes through Round/Truncate(DatePrecision). R13c: hash inputs (ChainLog/ComputeHash feed previous hash and the log into the digest; id derives from previous id). R13g: exact amounts — no function of the content-carrying packages (core types and codecs, machine, engine, store, API, bus) computes with a floating-point value, math/big.Float or a float parser (frozen exception: the one-shot v1 import). R13h: every struct with a hand-written UnmarshalJSON that decodes its input into an auxiliary struct (ChainedLog, SetMetadataLogPayload, DeleteMetadataLogPayload) is written by encoding/json from its own fields; the json key set of the type (tags, embedded promotion and shadowing as encoding/json computes them) is a subset of the key set of the auxiliary struct, compared case-insensitively as encoding/json matches them — R13j: in package command the constant stored in the TargetType of a metadata log payload is the constant of the switch case the payload is built in. R13h (continued): a key the reader does not declare is dropped on read-back; every such field is also stored into the receiver (field store, `*s = T{…}` composite, or a whole-value copy), and integers parsed inside these decoders (transaction ids) are parsed with bit size 64, the width they are written with.",
 		NotDecided:  "byte-for-byte equality of re-marshalled JSON, numeric range of ids, hash values; these are value-level facts.",
 		Trusted:     []string{"go/types constant evaluation", "encoding/json decoding semantics for struct fields", "lexical scan of 0-init-schema.sql"},
 		Assumptions: []string{"log rows are written only through the constructors in package internal (checked: composite literals of ledger.Log anywhere in the repo are enumerated)"},
@@ -37,6 +37,7 @@ func runC13(c *Ctx) {
 	ruleR05f(c, "R13c")
 	ruleExactAmounts(c, "R13g")
 	ruleR13h(c, "R13h", 3)
+	ruleTargetTypeAgrees(c, "R13j")
 }
 
 // logTypeTables extracts the case tables of the three Go switches.
